@@ -341,11 +341,11 @@ EXCLUDED_NODE_CLASSES = ("ProgramNode", "BlankNode", "CommentNode", "InjectedNod
 
 def check_completed_nodes(nodes, rl) -> list[tuple[str, str]]:
     """last clause: every completed method instruction other than Stop / blank / comment lines has a Completed item
-    (counted per run-log name, so that repeated lines need repeated items).  Instructions that are completed AND
-    cancelled get their own failure key (a cancelled instruction that ran anyway)."""
+    (counted per run-log name, so that repeated lines need repeated items).  When the missing Completed items are
+    matched by Cancelled items of the same name the failure gets its own key (an instruction whose item concluded
+    as Cancelled ran to completion anyway)."""
     from collections import Counter
     want: Counter = Counter()
-    want_cancelled: Counter = Counter()
     for n in nodes:
         cls = type(n).__name__
         if cls in EXCLUDED_NODE_CLASSES or not n.completed:
@@ -353,17 +353,17 @@ def check_completed_nodes(nodes, rl) -> list[tuple[str, str]]:
         nm = n.runlog_name
         if nm is None or nm == "Stop":
             continue
-        (want_cancelled if n.cancelled else want)[nm] += 1
+        want[nm] += 1
     have: Counter = Counter(it.name for it in rl.items if str(it.state) == "completed")
+    canc: Counter = Counter(it.name for it in rl.items if str(it.state) == "cancelled")
     for nm, k in sorted(want.items()):
-        if have[nm] < k:
+        if have[nm] + canc[nm] < k:
             return [("completed-instruction-without-completed-item",
                      f"{k} completed instruction(s) {nm!r}, {have[nm]} completed item(s)")]
-    for nm, k in sorted(want_cancelled.items()):
-        if have[nm] < k + want[nm]:
-            return [("cancelled-instruction-completed-without-completed-item",
-                     f"{k} instruction(s) {nm!r} cancelled and completed, {have[nm]} completed item(s), "
-                     f"{want[nm]} other completed instruction(s) of that name")]
+    for nm, k in sorted(want.items()):
+        if have[nm] < k:
+            return [("completed-instruction-shown-as-cancelled",
+                     f"{k} completed instruction(s) {nm!r}, {have[nm]} completed and {canc[nm]} cancelled item(s)")]
     return []
 
 
